@@ -13,3 +13,69 @@ Theorem C03_mem_shard_halves : forall n ih, (0 < n)%nat ->
   (shard_index n ih false < n)%nat /\ (n <= shard_index n ih true < 2 * n)%nat.
 Proof. exact shard_index_halves. Qed.
 Print Assumptions C03_mem_shard_halves.
+
+(* ---- storage, both real stores: an announce of one family changes nothing observable (counts and
+   membership) of the other family's swarm of ANY infohash *)
+From Chihaya Require Import Model.Tracker Proofs.RedisP Proofs.TrackerP Proofs.FamilyP.
+Theorem C03_mem_other_family_untouched : forall n ops a ih, (0 < n)%nat ->
+  observe (mem_if n) (run_mem n (ops ++ [SAnnounce a])) ih (negb (a_v6 a)) =
+  observe (mem_if n) (run_mem n ops) ih (negb (a_v6 a)).
+Proof. exact mem_other_family_untouched. Qed.
+Print Assumptions C03_mem_other_family_untouched.
+
+Theorem C03_redis_other_family_untouched : forall ops a ih,
+  Forall sop_wf ops -> ih_wf (a_ih a) -> ih_wf ih ->
+  observe red_if (run_redis (ops ++ [SAnnounce a])) ih (negb (a_v6 a)) =
+  observe red_if (run_redis ops) ih (negb (a_v6 a)).
+Proof. exact redis_other_family_untouched. Qed.
+Print Assumptions C03_redis_other_family_untouched.
+
+(* ---- what is registered: the peer of an accepted request belongs to the family the request is filed
+   under - a 4-byte address for IPv4 (an IPv4-mapped source has been narrowed to 4 bytes), a 16-byte
+   address that is NOT IPv4-mapped for IPv6 - for every datagram / every request line *)
+Theorem C03_udp_request_family : forall v6a o ip packet r q,
+  UdpParse.parse_announce v6a o (Some ip) packet = UdpParse.Accept (r, q) ->
+  wf_bytes packet = true -> wf_bytes ip = true -> (length ip = 4 \/ length ip = 16)%nat ->
+  sane_peer (a_v6 (ann_of_areq r)) (a_peer (ann_of_areq r)).
+Proof. exact udp_request_peer_sane. Qed.
+Print Assumptions C03_udp_request_family.
+
+(* ---- what is handed out: in EVERY state reached by a history of sane operations, every peer of an
+   announce response is of the announcer's own family (specification, memory store with any shard
+   count, Redis store) *)
+Theorem C03_response_peers_same_family : forall ops a,
+  Forall sop_sane ops -> sane_peer (a_v6 a) (a_peer a) ->
+  exists c i ps, respond spec_if a (run_spec ops) = Some (c, i, ps) /\ ps <> [] /\ Forall (sane_peer (a_v6 a)) ps.
+Proof. exact response_peers_same_family. Qed.
+Print Assumptions C03_response_peers_same_family.
+
+Theorem C03_response_peers_same_family_mem : forall n ops a,
+  (0 < n)%nat -> Forall sop_sane ops -> sane_peer (a_v6 a) (a_peer a) ->
+  exists c i ps, respond (mem_if n) a (run_mem n ops) = Some (c, i, ps) /\ ps <> [] /\ Forall (sane_peer (a_v6 a)) ps.
+Proof. exact response_peers_same_family_mem. Qed.
+Print Assumptions C03_response_peers_same_family_mem.
+
+Theorem C03_response_peers_same_family_redis : forall ops a,
+  Forall sop_sane ops -> Forall sop_wf ops -> ih_wf (a_ih a) -> sane_peer (a_v6 a) (a_peer a) ->
+  exists c i ps, respond red_if a (run_redis ops) = Some (c, i, ps) /\ ps <> [] /\ Forall (sane_peer (a_v6 a)) ps.
+Proof. exact response_peers_same_family_redis. Qed.
+Print Assumptions C03_response_peers_same_family_redis.
+
+(* ---- the wire (UDP): the entry width of an announce response is decided by the requester's family,
+   not by the action code: 20 header bytes, then 6 bytes per peer (IPv4) or 18 (IPv6) *)
+Theorem C03_udp_announce_entry_width : forall (t : tcfg) txid v6action a c i ps,
+  length txid = 4%nat -> Forall (sane_peer (a_v6 a)) ps ->
+  length (udp_announce_datagram t txid v6action a c i ps) = (20 + (if a_v6 a then 18 else 6) * length ps)%nat.
+Proof. exact udp_announce_entry_width. Qed.
+Print Assumptions C03_udp_announce_entry_width.
+
+(* end to end, for every datagram the dispatcher and parser accept as an announce, in every reachable state *)
+Theorem C03_udp_announce_response_width : forall mac t u ops clock ip packet txid v6a r q,
+  Forall sop_sane ops -> wf_bytes packet = true -> wf_bytes ip = true -> (length ip = 4 \/ length ip = 16)%nat ->
+  UdpParse.handle_udp mac (uc_key u) (uc_skew u) clock (uc_opts u) ip packet = UdpParse.UAnnounce txid v6a r q ->
+  exists sp' d k, udp_step spec_if mac t u (run_spec ops) clock ip packet = Some (sp', [d]) /\
+             length d = (20 + (if v6_of (r_af r) then 18 else 6) * k)%nat.
+Proof. exact udp_announce_response_width. Qed.
+Print Assumptions C03_udp_announce_response_width.
+(* the HTTP wire formats (peers = 6-byte entries of IPv4 peers, peers6 = 18-byte entries of IPv6 peers,
+   dictionary form) are C08_announce_body_decodes_compact / _dict, C08_compact4_decodes, C08_compact6_decodes *)
